@@ -1010,6 +1010,26 @@ theorem split_end_to_end (o : Oracles) (E : Env V) (hb : Bridge o E) (h0 : E.o.i
   · rw [hrows]
     exact stages_sorted E c ss _ (scanRows_evalLogX_sorted E.num o c d ms [])
 
+/-- **split_end_to_end for ANY prefix of the C07 fragment** (also `| regexp`, repeated json names, … — stages the in-process
+    engine does not have, so the whole pipeline has no `LogQL.Stages` reading): the in-process suffix over the rows of the
+    real prefix statement is, as a multiset ordered by timestamp, C09's reading of the suffix applied to C07's reading of
+    the prefix (`stagesX`, stage by stage over the selector's entries — `baseX_stages`) as the getter scans it -/
+theorem split_end_to_end_any_prefix (o : Oracles) (E : Env V) (h0 : E.o.isNum [] = false)
+    (c : LogQL.Ctx) (hn : c.namesOk) (d : LokiDb) (hd : SeriesTableOk c d) (ms : List Matcher) (hm : ms.length ≤ 63)
+    (chX : List StageX) (internal : List (StageK V)) (bs : Batches V) (hbs : bs.flatten = chRows E.num o c d ms chX) :
+    ((runStages E internal bs).flatten).Perm
+      (Stages.stages E internal ((stagesX o chX (selX o c d ms)).map (scanX E.num))) ∧
+    (runStages E internal bs).flatten.Pairwise (fun a b => entLe c a b = true) := by
+  have hrows : chRows E.num o c d ms chX = scanRows E.num (evalLogX o c false d ⟨ms, chX⟩) := by
+    simp only [chRows, planLogX_correct o c hn d ⟨ms, chX⟩ false hm]
+  have hpb : ∀ e ∈ bs.flatten, e.err = none := by rw [hbs]; exact chRows_proper E.num o c d ms chX
+  rw [batching_invariant_stages, (stages_meet_logql E h0 internal bs.flatten hpb).1, hbs, hrows]
+  constructor
+  · have hpre := scanRows_evalLogX_perm E.num o c d ms chX
+    rw [baseX_stages o c d hd] at hpre
+    exact stages_perm E internal _ _ hpre
+  · exact stages_sorted E c internal _ (scanRows_evalLogX_sorted E.num o c d ms chX)
+
 /-- **(a) `FpFaithful` of the upstream, derived.** When the ClickHouse part of a split pipeline consists of filters (so the
     rows carry their stream's fingerprint and labels: one `time_series` row per fingerprint), the fingerprint identifies
     the label set among the rows the getter hands over — under `SeriesStoreOk` alone. This is the hypothesis
